@@ -38,16 +38,18 @@ def run_job(job):
             fpg = sched_rng.choice([None, 1, 2])
             # Bound the number of input groups (each is 16 bucket hand-offs): several MiB of strings
             # cut into 256-byte groups is millions of scheduler steps, close to the step budget.
+            from .family_graph import _stall_faults
+            faults = _stall_faults(rng_for("str-stall", seed, index, s))
             while total / min_group > 4000 and min_group < 140000:
                 min_group = {256: 512, 512: 1024, 1024: 4096, 4096: 16384, 16384: 140000}[min_group]
             if only is not None and s != only:
                 continue
-            plan = Plan(pseed, strategy, log_level=1)
+            plan = Plan(pseed, strategy, faults=faults, log_level=1)
             if job.get("decisions") is not None:
                 dpath = os.path.join(workdir, f"decisions_in_{s}.txt")
                 with open(dpath, "w") as fh:
                     fh.write("\n".join(str(x) for x in job["decisions"]) + "\n")
-                plan = Plan(pseed, "replay", log_level=1, decisions_in=dpath)
+                plan = Plan(pseed, "replay", faults=faults, log_level=1, decisions_in=dpath)
             out = os.path.join(workdir, f"out{s}")
             argv = ["-o", out, "-static", "--no-fork", f"--threads={threads}",
                     f"--wild-experiments={split_par},{min_group}"] + objs
@@ -65,6 +67,10 @@ def run_job(job):
             res["steps"] += r.steps
             res["switches"] += int(r.summary.get("switches", 0))
             c[f"threads_{threads}"] = c.get(f"threads_{threads}", 0) + 1
+            if faults:
+                c["fault_configured_stall"] = c.get("fault_configured_stall", 0) + len(faults)
+                c["fault_fired_stall"] = c.get("fault_fired_stall", 0) + \
+                    sum(1 for f in r.summary.get("faults_fired", []) if "Stall" in f)
             c[f"min_group_{min_group}"] = c.get(f"min_group_{min_group}", 0) + 1
             c[f"strategy_{strategy.split(':')[0]}"] = c.get(f"strategy_{strategy.split(':')[0]}", 0) + 1
             if int(r.summary.get("switches", 0)) > 0:
